@@ -191,14 +191,19 @@ EvVal(t) == CASE t = 1 -> I("int32", 127) [] t = 2 -> VString(<<104,105>>) [] t 
 \* a message written under schema A = sequence of distinct tags in write order
 Perms(S) == { s \in [1..Cardinality(S) -> S] : \A i, j \in DOMAIN s : i # j => s[i] # s[j] }
 EvMsgs == IF Mode # "evolve" THEN {} ELSE UNION { Perms(S) : S \in SUBSET EvTags }
-EvCase(order, R) ==
-    LET v == VMsg([i \in DOMAIN order |-> <<order[i], EvVal(order[i])>>])
+EvCaseV(order, R, Val(_)) ==
+    LET v == VMsg([i \in DOMAIN order |-> <<order[i], Val(order[i])>>])
         e == Encode(v)
     IN [mode |-> "evolve", enc |-> e, written |-> order, reader |-> SetToSeq(R),
         reads |-> [i \in 1..Cardinality(R) |->
                      LET t == SetToSeq(R)[i] IN
                      [tag |-> t, present |-> HasField(e, t),
                       val |-> IF HasField(e, t) THEN LET fb == LookupRaw(e, t) IN Parse(fb).v ELSE VNone]]]
+EvCase(order, R) == EvCaseV(order, R, EvVal)
+\* a field unknown to the reader that is larger than 64 KiB: offsets need the big table although every tag is small
+EvBigVal(t) == IF t = 2 THEN VString(Fill(65600)) ELSE EvVal(t)
+EvBigMsgs == IF Mode # "evolve" THEN {} ELSE Perms({1, 2, 255}) \cup Perms({2, 255})
+EvBigCases == { EvCaseV(o, R, EvBigVal) : o \in EvBigMsgs, R \in {{255}, {1, 255}} }
 
 \* ---------------------------------------------------------------- machine
 Init ==
@@ -208,7 +213,7 @@ Init ==
          [] Mode = "mutant" -> c \in { MutCase(b, b, "base") : b \in MutBases }
          [] Mode = "short"  -> c = MutCase(<<>>, <<>>, "short")
          [] Mode = "bytes2" -> c = MutCase(<<>>, <<>>, "short")
-         [] Mode = "evolve" -> c \in { EvCase(o, R) : o \in EvMsgs, R \in (SUBSET EvTags) \ {{}} }
+         [] Mode = "evolve" -> c \in { EvCase(o, R) : o \in EvMsgs, R \in (SUBSET EvTags) \ {{}} } \cup EvBigCases
 
 MaxShort == IF Level = 1 THEN 3 ELSE 3
 Next ==
